@@ -18,7 +18,8 @@
    Everything else of the property's grammar is covered by the correspondence check only
    (checks/c06.py: a test, labelled as such in the manifest). *)
 From GoldV Require Import Base Tokens Keywords Lexer AstKinds Tree Strings PComb Grammar Ladder
-                          RTComb LadderProofs LadderNames ExprRT Encase RangeEnc TypeRT OqlRT StmtRT DeclRT FuelIndep FileRT EnclRT.
+                          RTComb LadderProofs LadderNames ExprRT Encase RangeEnc TypeRT OqlRT StmtRT DeclRT FuelIndep FileRT EnclRT
+                          Unlex UnlexProofs.
 From Coq Require Import Lia.
 
 (* ---------- 1. the generated ladder ---------- *)
@@ -503,6 +504,41 @@ Example C06_lexed_example :
   end.
 Proof. vm_compute. auto. Qed.
 
+(* ---------- from token lists to TEXTS ----------
+   The file theorem composed with the lexer round trip (C05_lex_unlex): print ANY list of printable lexemes
+   (Model/Unlex.v: one blank between lexemes, a line feed after a comment); if the lexed tokens are derivable
+   as a file of the grammar, then the text lexes without error to exactly those lexemes and parses, with
+   memoisation on, to the prescribed tree with zero diagnostics. *)
+Theorem C06_text_roundtrip : forall lx f ns, forallb printable lx = true ->
+  Decls f (fst (lex (unlex lx))) ns ->
+  map lx_obs (fst (lex (unlex lx))) = lx /\ snd (lex (unlex lx)) = [] /\
+  fst (parse_gold (fst (lex (unlex lx)))) = Ok [] (mk_root ns) /\
+  cdiags (snd (parse_gold (fst (lex (unlex lx))))) = [].
+Proof.
+  intros lx f ns Hp Hd. destruct (lex_unlex lx Hp) as (A & B & _).
+  destruct (file_roundtrip_parse_gold f _ ns Hd) as (C & D). auto.
+Qed.
+
+(*  class aX proc P while c x = y endwhile endproc   -- as a text *)
+Example C06_text_example :
+  let lx := [(TClass, [99;108;97;115;115]); (TIdentifier, [97;88]); (TProc, [112;114;111;99]); (TIdentifier, [80]);
+             (TWhile, [119;104;105;108;101]); (TIdentifier, [99]); (TIdentifier, [120]); (TEquals, [61]);
+             (TIdentifier, [121]); (TEndWhile, [101;110;100;119;104;105;108;101]); (TEndProc, [101;110;100;112;114;111;99])] in
+  forallb printable lx = true /\
+  exists ns, Decls 2 (fst (lex (unlex lx))) ns /\ length ns = 2%nat /\
+             fst (parse_gold (fst (lex (unlex lx)))) = Ok [] (mk_root ns).
+Proof.
+  cbv zeta. split; [vm_compute; reflexivity|].
+  match goal with |- context [fst (lex (unlex ?l))] => remember (fst (lex (unlex l))) as ts eqn:E end.
+  vm_compute in E. subst ts.
+  match goal with |- exists ns, Decls 2 [?ct; ?cn; ?pt; ?pn; ?wt; ?c; ?x; ?eq; ?y; ?ew; ?ep] ns /\ _ =>
+    destruct (C06_file_derivable ct cn pt pn wt c x eq y ew ep eq_refl eq_refl eq_refl eq_refl eq_refl eq_refl
+                eq_refl eq_refl eq_refl eq_refl eq_refl eq_refl) as (ns & Hd & Hns)
+  end.
+  exists ns. split; [exact Hd|]. split; [rewrite Hns; reflexivity|].
+  exact (proj1 (C06_file_roundtrip 2 _ ns Hd)).
+Qed.
+
 (* ---------- a documented fact about comments (not a refutation of the property) ----------
    Comments between statements are layout for C06: the property speaks of constructs, and the
    correspondence check compares trees modulo comment nodes.  The declarative statement grammar of the
@@ -601,3 +637,5 @@ Print Assumptions C06_lexed_example.
 Print Assumptions C06_comment_node_dropped_before_block.
 Print Assumptions C06_comment_kept_before_simple.
 Print Assumptions C06_lookup_at_touching_tokens.
+Print Assumptions C06_text_roundtrip.
+Print Assumptions C06_text_example.
